@@ -1080,6 +1080,32 @@ def check_guard(ctx, crate, E, g):
         return False, "%s of %s is no longer visibly sized by %s() + %d (one push per category plus the " \
                       "end, a resize, or a creation with that length)" % (
                           g["local"], g["fn"].split("::")[-2], g["count"], g["plus"])
+    if kind == "arg_is_sum":
+        # every call of <callee> made in <fn> (or a closure written in it) passes, as argument
+        # <arg>, the sum of argument <of> and something: `f(.., pos, pos + len, ..)`
+        region = [p for p in crate.fns if (p == g["fn"] or p.startswith(g["fn"] + "::{closure")) and crate.fns[p].body]
+        if not region:
+            raise EngineError("panic table guard: function %s not found" % g["fn"])
+        n_calls, bad_ = 0, []
+        for p in region:
+            qa = E.fa(p)
+            QS = Sym(E, qa)
+            for b, t in qa.calls():
+                c = callee_of(t)
+                if c is None or not strip_generics((c.get("resolved") or c)["path"]).endswith(g["callee"]):
+                    continue
+                n_calls += 1
+                e_sum = strip_casts(QS.operand(t["args"][g["arg"]]))
+                e_base = strip_casts(QS.operand(t["args"][g["of"]]))
+                okc = e_sum[0] == "binop" and e_sum[1].startswith("Add") and \
+                    e_base in (strip_casts(e_sum[2]), strip_casts(e_sum[3]))
+                if not okc:
+                    bad_.append(show(e_sum)[:60])
+        if n_calls and not bad_:
+            return True, "%s is called with argument %d = argument %d + length (%d call site(s))" % (
+                g["callee"], g["arg"], g["of"], n_calls)
+        return False, "%s is called with %s as argument %d, which is not argument %d plus a length" % (
+            g["callee"], bad_ or "nothing", g["arg"], g["of"])
     if kind == "len_le":
         # fn returns Err when len(<local>) exceeds a constant <= bound
         fa = E.fa(g["fn"])
@@ -1530,7 +1556,7 @@ def run_tok(ctx):
     # and the same operation; at most two sites per stale rule
     def _match(sk, fn_):
         for p_ in patterns:
-            if p_["fn"] in fn_ and re.search(p_["rx"], sk):
+            if _fn_match(p_["fn"], fn_) and re.search(p_["rx"], sk):
                 return p_
         return None
     live = [id(_match(s_.key, s_.fn)) for s_, r_ in scanned if r_ is None]
@@ -1613,6 +1639,17 @@ def run_tok(ctx):
                "are re-verified on every run")
 
 
+def _fn_match(pat, fn):
+    """a table rule names a function, possibly one of its closures by number; the number is an
+    accident of how many closures precede it, and a statement may move between f and a closure of
+    f: a rule for `f::{closure#2}` covers f and its closures (operands are described as f sees
+    them, and the operand pattern tells the sites apart)"""
+    if pat in fn:
+        return True
+    base = re.sub(r"(::\{closure(#\d+\})?)+$", "", pat)
+    return base != pat and base in re.sub(r"(::\{closure#\d+\})+$", "", fn)
+
+
 TRAIN_FNS = ("UnkHandler::compatible_unk_index", "trainer::Trainer::build_lattice")
 
 
@@ -1633,7 +1670,9 @@ def run_train(ctx):
     table reasons assume the corpus is tokenizer output (non-empty surfaces that concatenate to
     the sentence); a new index / unwrap / arithmetic site on this path is reported."""
     crate, E, fns, scanned = _train_scan(ctx)
-    ctx.floor("TRAINPANIC", "functions between the corpus and the training lattice", len(fns), 5)
+    # (named functions only: how many closures a function is written with is a matter of style)
+    ctx.floor("TRAINPANIC", "named functions between the corpus and the training lattice",
+              len([p for p in fns if "{closure" not in p]), 2)
     ctx.floor("TRAINPANIC", "potential panic / wrap sites", len(scanned), 20)
     patterns = [p for p in load_table().get("patterns", []) if p.get("scope") == "TRAIN"]
     ctx.floor("TRAINPANIC", "table rules", len(patterns), 10)
@@ -1645,7 +1684,7 @@ def run_train(ctx):
             continue
         e = None
         for p in patterns:
-            if p["fn"] in s.fn and re.search(p["rx"], s.key):
+            if _fn_match(p["fn"], s.fn) and re.search(p["rx"], s.key):
                 e = p
                 break
         if e is None:
